@@ -21,6 +21,7 @@ def run(ctx):
         _energy(ctx, tmp)
         _elast(ctx, tmp)
         _fill_cli(ctx, tmp)
+        _fill_cli_noisy(ctx, tmp)
     finally:
         cc.stop()
         shutil.rmtree(tmp, ignore_errors=True)
@@ -273,6 +274,86 @@ def _elast(ctx, tmp):
                         bad = "lattice parameters differ"
         if bad:
             ctx.violation("read_elast_data:" + bad.split(":")[0].split(" ")[0], bad, case_id, {"columns": [c[0] for c in cols]})
+
+
+def _fill_cli_noisy(ctx, tmp):
+    """Tables that list several components tied by one relation with slightly inconsistent values (numerical noise below the
+    residual tolerance, or any size with --ignore-residuals).  The relations are given as a user-written file, so the oracle
+    knows the stacked least-squares system and with it the symmetry-filled parse of the input exactly."""
+    from click.testing import CliRunner
+    import cij.cli.fill
+    from .c09 import write_relation_file, dependent_pair
+    n = ctx.pick(32, 4800)
+    for i in range(n):
+        system = [s_ for s_ in laue.SYSTEMS if s_ != "triclinic"][i % 8]
+        case_id = f"fillnoisy-{system}-{i}"
+        if not ctx.mine(4 * 10 ** 5 + i, case_id):
+            continue
+        rng = ctx.rng("fillnoisy", system, i)
+        rel = os.path.join(tmp, f"relations-{i}.txt")
+        lines, R = write_relation_file(rel, system, rng, want_rows=True)
+        nv = int(rng.integers(1, 8))
+        field = FT.invariant_field(rng, system, nv)
+        S = FT.superset(rng, FT.minimal_sufficient(rng, system), 0.6)
+        if dependent_pair(system, S, rng) is None:
+            ctx.count("generator_skips")
+            continue
+        ignore = bool(i % 2)
+        Astack = numpy.vstack([numpy.eye(21)[S], R])
+        noise = rng.normal(size=(nv, len(S)))
+        supplied = numpy.round(field[:, S] + noise, 6)
+        # scale the noise so that the largest squared misfit over the rows is 0.3 x the default tolerance (accepted as it is),
+        # or 30 x with --ignore-residuals
+        for _ in range(3):
+            b = numpy.vstack([supplied.T, numpy.zeros((len(R), nv))])
+            x, *_ = numpy.linalg.lstsq(Astack, b, rcond=None)
+            res = ((Astack @ x - b) ** 2).sum(axis=0).max()
+            if not (res > 0):
+                break
+            target = (3.0 if ignore else 0.03)
+            noise = noise * numpy.sqrt(target / res)
+            supplied = numpy.round(field[:, S] + noise, 6)
+        b = numpy.vstack([supplied.T, numpy.zeros((len(R), nv))])
+        x, *_ = numpy.linalg.lstsq(Astack, b, rcond=None)          # (21, nv): the symmetry-filled parse of the input
+        res = ((Astack @ x - b) ** 2).sum(axis=0).max()
+        if not ignore and not (0.003 < res < 0.06):
+            ctx.count("generator_skips")
+            continue
+        volumes = numpy.round(numpy.sort(rng.uniform(100, 900, nv))[::-1], 4)
+        path = os.path.join(tmp, f"fillnoisy-{i}.dat")
+        cols = [("c%d%d" % T.VOIGT21[s_], supplied[:, k]) for k, s_ in enumerate(S)]
+        F.write_input02(path, 500.0, 100.0, volumes, cols, lattice=None, fmt="%.6f", title=f"{system}, redundant table with noise")
+        args = ["-s", rel, path] + (["--ignore-residuals"] if ignore else [])
+        r_ = CliRunner().invoke(cij.cli.fill.main, args)
+        ctx.evaluation(f"fill-command|redundant-noisy-table|{'--ignore-residuals' if ignore else 'below-tolerance'}", (system, i),
+                       sample={"system": system, "rows": nv, "supplied": [c[0] for c in cols], "largest_squared_misfit": float(res)})
+        data = {"system": system, "relations": lines, "file": open(path).read(), "args": args[2:]}
+        if r_.exit_code != 0:
+            err = "".join(__import__("traceback").format_exception(r_.exception)) if r_.exception else r_.output
+            ctx.violation(f"fill-command:fails:noisy-table:{'ignore-residuals' if ignore else 'below-tolerance'}", f"cij fill exit {r_.exit_code}\n{err[-1000:]}", case_id, data)
+            continue
+        try:
+            own = F.read_input02_text(r_.stdout)
+        except Exception as exc:
+            ctx.violation(f"fill-command:output-not-a-valid-table:{type(exc).__name__}", exc_text(exc), case_id, data)
+            continue
+        bad = None
+        for n_, p_ in enumerate(T.VOIGT21):
+            want = x[n_]
+            got = own["components"].get(p_)
+            if got is None:
+                if numpy.abs(want).max() > 1e-4:
+                    bad = f"c{p_[0]}{p_[1]} missing (expected up to {numpy.abs(want).max():.4g})"
+                    break
+            elif numpy.abs(numpy.array(got) - want).max() > 2e-5:
+                j = int(numpy.argmax(numpy.abs(numpy.array(got) - want)))
+                bad = (f"c{p_[0]}{p_[1]} at row {j}: printed {got[j]} but the least-squares filling of the input gives {want[j]:.6f}"
+                       + (f" (the input lists {supplied[j, S.index(n_)]:.6f})" if n_ in S else " (generated component)"))
+                break
+        ctx.count("fill_roundtrips_judged")
+        if bad:
+            ctx.violation(f"fill-command:parse-differs:noisy-redundant-table:{'listed' if 'input lists' in bad else 'generated' if 'generated' in bad else 'missing'}",
+                          f"{system}: {bad}", case_id, data)
 
 
 def _fill_cli(ctx, tmp):
